@@ -330,6 +330,7 @@ LAT_CONFIGS = {
             ('line5-allworlds', q(V_TOPO='line', V_N=5, V_MAXD=2, V_RAD2=5, V_LVS=1, V_BIAS='p', V_MAXT=2, V_MAXCALLS=2, V_WORLDS='all')),
             ('ring6-rewire', q(V_TOPO='ring', V_N=6, V_MAXD=2, V_RAD2=3, V_LVS=1, V_BIAS='0', V_MAXT=3, V_MAXCALLS=2, V_WORLDS='few', V_PROBLEMS='one')),
             ('grid3x2', q(V_TOPO='grid', V_N=6, V_W=3, V_MAXD=2, V_RAD2=5, V_LVS=1, V_BIAS='0', V_MAXT=3, V_MAXCALLS=2, V_WORLDS='few', V_PROBLEMS='one')),
+            ('ring6-integer-radius', q(V_TOPO='ring', V_N=6, V_MAXD=1, V_RAD2=4, V_LVS=1, V_BIAS='0', V_MAXT=3, V_MAXCALLS=2, V_WORLDS='few', V_PROBLEMS='one')),
             ('line5-api', q(V_TOPO='line', V_N=5, V_MAXD=2, V_RAD2=5, V_LVS=1, V_BIAS='1', V_MAXT=1, V_MAXCALLS=4, V_WORLDS='free', V_PROBLEMS='one')),
         ],
         'thorough': [
@@ -360,6 +361,8 @@ LAT_CONFIGS = {
             ('line5-allworlds', q(V_TOPO='line', V_N=5, V_RAD2=5, V_LVS=1, V_BUILD=2, V_MAXCALLS=3, V_WORLDS='all', V_PROBLEMS='one')),
             ('ring6-api', q(V_TOPO='ring', V_N=6, V_RAD2=3, V_LVS=1, V_BUILD=1, V_MAXCALLS=5, V_WORLDS='few', V_PROBLEMS='one')),
             ('grid3x2', q(V_TOPO='grid', V_N=6, V_W=3, V_RAD2=5, V_LVS=1, V_BUILD=2, V_MAXCALLS=3, V_WORLDS='few', V_PROBLEMS='one')),
+            ('line5-api-goalregion', q(V_TOPO='line', V_N=5, V_RAD2=7, V_LVS=1, V_BUILD=3, V_MAXCALLS=3, V_WORLDS='free')),
+            ('line6-integer-radius', q(V_TOPO='line', V_N=6, V_RAD2=4, V_LVS=1, V_BUILD=2, V_MAXCALLS=3, V_WORLDS='few', V_PROBLEMS='one')),
         ],
         'thorough': [
             ('line5-many', q(V_TOPO='line', V_N=5, V_RAD2=5, V_LVS=1, V_BUILD=2, V_MAXCALLS=3, V_WORLDS='all')),
